@@ -358,6 +358,23 @@ struct NeuroH
         }
         double err = A[(size_t)o.a] - A[(size_t)o.b];
         if (c.pid.err != err || c.pid.fdb != A[(size_t)o.b] || c.ec != err - b.pid.err) { ck.fail("cache", "cached error / feedback / error change are not those of this step"); }
+        if (o.code == M_INC && ck.ok())
+        {
+            // documented control law: the weighted inputs (error change, error, second difference) normalised by |wp|+|wi|+|wd| and scaled by K.
+            // The header adds this to u(k-1), the code does not: both readings are accepted, anything else is not the documented law.
+            double ec = err - b.pid.err, var = ec - b.ec;
+            double den = std::fabs((double)c.wp) + std::fabs((double)c.wi) + std::fabs((double)c.wd);
+            if (den > 0)
+            {
+                double delta = (double)c.k * ((double)c.wp * ec + (double)c.wi * err + (double)c.wd * var) / den;
+                double mag = std::fabs(delta) + std::fabs((double)b.pid.out) + 1, tol = 64 * (double)A_REAL_EPSILON * mag;
+                double w1 = sat(delta, P.outmin, P.outmax), w2 = sat((double)b.pid.out + delta, P.outmin, P.outmax);
+                if (!(std::fabs((double)c.pid.out - w1) <= tol) && !(std::fabs((double)c.pid.out - w2) <= tol))
+                {
+                    ck.fail("neuron-equation", "the output " + num(c.pid.out) + " is neither sat(K*(wp*xp + wi*xi + wd*xd)/(|wp|+|wi|+|wd|)) = " + num(w1) + " nor that added to the previous output (" + num(w2) + ")");
+                }
+            }
+        }
     }
     void expand(const std::string &key, uint32_t, xs::Sink &out)
     {
